@@ -181,6 +181,25 @@ def hermite_case(case):
                     observed=dict(err=float(np.max(np.abs(gg - gw))), bound=float(np.max(gb))), expected=np.asarray(gw, dtype=float))
                 break
         r.out(("hermite-far", case["dtype"], len(shape), tuple(co), b_ > a_))
+    # end values and end slopes are reproduced EXACTLY (the statement qualifies only the polynomial reproduction with 'to rounding'), for interval lengths
+    # whose reciprocal does not multiply back to one (49, 49/64, 98, 0.75) and for queries of other float types than the piece's
+    for (a_, b_) in [(0.0, 49.0), (49.0, 0.0), (0.25, 0.25 + 49.0 / 64), (-0.5, 0.25), (98.0, 0.0), (-3.0, 46.0)] + FAR_INTERVALS[:2]:
+        t0r, t1r = dt(a_), dt(b_)
+        pe0 = np.asarray((co[0] + 1.0) * scale, dtype=dt); pe1 = np.asarray((co[1] - 2.0) * scale, dtype=dt)
+        me0 = np.asarray((co[2] + 0.5) * scale, dtype=dt); me1 = np.asarray((co[3] - 0.25) * scale, dtype=dt)
+        c = CH(t0r, t1r, pe0, pe1, me0, me1)
+        cs = dict(section="hermite", dtype=case["dtype"], shape=list(shape), cubic=list(co), t0=a_, t1=b_, exact_ends=True)
+        queries = [("own dtype", t0r, t1r), ("0-d array", np.asarray(t0r), np.asarray(t1r)), ("longdouble", np.longdouble(t0r), np.longdouble(t1r))]
+        if dt is np.float64:
+            queries.append(("python float", float(t0r), float(t1r)))
+        for label, q0, q1 in queries:
+            r.n += 1
+            got = [np.asarray(c(q0)), np.asarray(c(q1)), np.asarray(c.grad(q0)), np.asarray(c.grad(q1))]
+            want = [pe0, pe1, me0, me1]
+            bad = [nm for nm, g_, w_ in zip(("p0", "p1", "m0", "m1"), got, want) if g_.shape != w_.shape or not np.array_equal(np.asarray(g_, dtype=np.longdouble), np.asarray(w_, dtype=np.longdouble))]
+            if bad:
+                r.v("C17/hermite/end-exact", "a cubic Hermite piece reproduces its end values and end slopes", dict(cs, query=label), observed=dict(not_reproduced=bad), expected="bit-exact at t0 and t1")
+                break
     r.samples.append(dict(section="hermite", dtype=case["dtype"], shape=list(shape), cubic=list(co), intervals=20 + len(FAR_INTERVALS), points=37))
     return r
 
